@@ -79,6 +79,9 @@ theorem finish_inv (s : St) (h : Inv s) : Inv (finish s) := by
   · refine ⟨?_, ?_, ?_, ?_, ?_, ?_, ?_⟩ <;> simp_all
   · exact ⟨h1, h2, h3, h3', h4, h5, h6⟩
 
+theorem haltState_inv (s : St) (r : Res) (h : Inv s) : Inv (haltState s r) := by
+  cases r <;> simp only [haltState] <;> first | exact h | exact finish_inv s h
+
 theorem runFrom_inv (s : St) (ops : List Op) (h : Inv s) : Inv (runFrom s ops).st := by
   induction ops generalizing s with
   | nil => exact finish_inv s h
@@ -87,7 +90,7 @@ theorem runFrom_inv (s : St) (ops : List Op) (h : Inv s) : Inv (runFrom s ops).s
     split
     · exact ih s h
     · split
-      · exact h
+      · exact haltState_inv s _ h
       · exact ih _ (step_inv s op h)
 
 theorem run_inv (k : Kind) (b : Beh) (ops : List Op) : Inv (run k b ops).st := by
@@ -121,6 +124,9 @@ theorem step_kill_ok (s : St) (h : (step s .kill).2 = .ok) : (step s .kill).1.ki
 theorem finish_killed (s : St) : (finish s).killed = s.killed := by
   simp only [finish]; split <;> rfl
 
+theorem haltState_killed (s : St) (r : Res) : (haltState s r).killed = s.killed := by
+  cases r <;> simp only [haltState, finish_killed]
+
 theorem runFrom_killed_mono (s : St) (ops : List Op) (h : s.killed = true) : (runFrom s ops).st.killed = true := by
   induction ops generalizing s with
   | nil => simpa [runFrom, finish_killed] using h
@@ -129,7 +135,7 @@ theorem runFrom_killed_mono (s : St) (ops : List Op) (h : s.killed = true) : (ru
     split
     · exact ih s h
     · split
-      · exact h
+      · rw [haltState_killed]; exact h
       · exact ih _ (step_killed_mono s op h)
 
 theorem runFrom_killOk (s : St) (ops : List Op) (h : killOkFrom ops (runFrom s ops).res = true) :
@@ -220,7 +226,8 @@ theorem runFrom_quiet (s : St) (ops : List Op) (hi : Inv s) (h : Quiet s)
     · rename_i hloop
       simp only [hloop] at ha hl
       split
-      · exact h.na
+      · generalize (step s op).2 = r
+        cases r <;> simp only [haltState] <;> first | exact h.na | exact (finish_quiet s h).na
       · rename_i hh
         have ha1 : killArmed s op = false := by
           cases hk : killArmed s op <;> simp_all
@@ -337,7 +344,7 @@ theorem runFrom_survivors (s : St) (ops : List Op) (hi : Inv s) (hs : Surv s)
       simp only [hloop] at hk hl hh
       split
       · rename_i hhalt
-        simp only [hhalt, ↓reduceIte] at hk
+        simp only [hhalt, ↓reduceIte, Bool.false_eq_true, haltState_killed] at hk
         have := step_halts_active s op hhalt
         have := hi.kil hk
         simp_all
